@@ -8,6 +8,8 @@ P2 == ("a" :> <<<<"push", "L">>, <<"push", "L">>, <<"pop", "R">>>>) @@
       ("b" :> <<<<"push", "R">>, <<"pop", "L">>, <<"pop", "L">>>>)
 \* owner pushes on the left while a thief pops on the right (the abp queue pattern)
 P4 == ("a" :> <<<<"push", "L">>, <<"push", "L">>, <<"push", "L">>>>) @@ ("b" :> <<<<"pop", "R">>, <<"pop", "R">>>>)
+\* pushes on both ends at the same time, then a drain from the left
+P5 == ("a" :> <<<<"push", "L">>, <<"push", "L">>, <<"pop", "L">>, <<"pop", "L">>>>) @@ ("b" :> <<<<"push", "R">>, <<"push", "R">>>>)
 P2b == ("a" :> <<<<"push", "R">>, <<"push", "R">>, <<"pop", "R">>>>) @@
        ("b" :> <<<<"pop", "L">>, <<"push", "L">>, <<"pop", "R">>>>)
 =============================================================================
